@@ -264,3 +264,15 @@ PROPS["C19"].update({
 PROPS["C20"].update({
     "level_text": "PROVED (loop-free): order of the reset dialogue in bidib_send_sys_reset (reset numbered and flushed before the tables are cleared, capacity query, features, enable, train parameters, track outputs GO, occupancy query, initial values). BOUNDED: bidib_state_set_board_features, bidib_state_set_initial_values, bidib_state_query_nodetab, bidib_set_track_output_state_all (every connected track output commanded exactly once), and in the parser units: an accessory's initial value is registered in the list of its own kind (points are commanded as points).",
 })
+
+PROPS["C11"].update({
+    "level_text": PROPS["C11"]["level_text"] + " Additionally (wait points): no lock is held at a polling wait (usleep) and every function that may wait - transitively - is only called with no lock held, so a thread never waits for the receiver's progress while holding a lock the receiver needs (finding D28).",
+})
+PROPS["C13"]["level_text"] += " The segment and reverser units (quick) and the accessory / peripheral units (deep variants) end with a release epilogue - the real bidib_state_free_single_* functions on the board and on whatever the function registered - under CBMC's memory-leak check: a rejected or accepted record leaves nothing allocated that is not owned by the board or the registry."
+PROPS["C13"]["not_covered"] = ["YAML text -> event stream (libyaml itself; its event API is an assumed contract)", "event streams longer than the stated bounds, scalar values outside the unit's pool", "leak freedom of the board / train / top-level parser functions (only the five section parsers carry the release epilogue)", "termination (libyaml streams are finite)"]
+PROPS["C17"]["level_text"] += " bidib_free_track_state: for every combination of list lengths 0..2 no invalid or double free and nothing left allocated (memory-leak check); train getters (state, on-track, speed step, km/h, function state)."
+PROPS["C17"]["not_covered"] = ["id-list getters are covered under C14.enum_*; a few remaining single-value getters (unique id / node address / board id queries)", "string contents beyond the recorded source of each copy"]
+PROPS["C09"]["not_covered"] = ["configurations above the stated bounds (2 boards, 2 aspects, 2 port values, 3 train functions)"]
+PROPS["C09"]["level_text"] = PROPS["C09"]["level_text"].replace("bidib_set_train_peripheral (thorough tier only)", "bidib_set_train_peripheral (function-group helper + command with the helper's contract; state other than 0/1 rejected - finding D18), bidib_set_calibrated_train_speed") + " PROVED also: bidib_emergency_stop_train, bidib_request_reverser_state."
+PROPS["C16"]["level_text"] = PROPS["C16"].get("level_text", "") + " A start while running - with valid or rejected arguments - creates and joins nothing and leaves the session up."
+PROPS["C05"]["not_covered"] = ["interleavings of concurrent senders (allocation / admission / buffering are not one atomic section)"]
